@@ -1086,8 +1086,17 @@ fn roundtrip(w: &W, fmt: Fmt) -> Verdict {
                     // pragmas and directives as real files carry them: still comments to these readers
                     out.extend_from_slice(w.pick(&PRAGMAS).as_bytes());
                     w.probe("pragma_comment_line");
+                } else if w.chance(1, 50) {
+                    // a comment longer than the reader's buffers
+                    let n = crate::gen::magic_size(w, 15);
+                    out.extend(std::iter::repeat(*w.pick(b"c#\t \"")).take(n));
+                    w.probe("comment_line_of_magic_length");
                 } else {
                     out.extend_from_slice(string_from(w, &COMMENT_CHARS, 0, 10).as_bytes());
+                }
+                if w.chance(1, 6) {
+                    // a comment typed on another platform
+                    out.push(b'\r');
                 }
                 out.push(b'\n');
                 inserted += 1;
